@@ -89,32 +89,38 @@ def run(model, rep):
                     rep.check(not problems, 'C10.FLOW', mi.loc(), label, 'the three consumers receive the caller\'s names plus the names the binder recorded',
                               '; '.join(problems[:3]), key=key)
 
-    # (that the names of a literal __all__ are pinned is decided on a real tree by gate_tree, under C10.GUARD)
-    # find__all__ itself: abstract evaluation on three module shapes
-    fa = model.func(UTIL + '.find__all__')
-    shapes = {
-        'Assign': lambda: Obj('Assign', targets=[Obj('Name', id='__all__')], value=Obj('List', elts=[Obj('Constant', value='a'), Obj('Constant', value='b')])),
-        'AnnAssign': lambda: Obj('AnnAssign', target=Obj('Name', id='__all__'), value=Obj('List', elts=[Obj('Constant', value='a'), Obj('Constant', value='b')])),
-        'AugAssign': lambda: Obj('AugAssign', target=Obj('Name', id='__all__'), value=Obj('List', elts=[Obj('Constant', value='a'), Obj('Constant', value='b')])),
-        'other': lambda: Obj('Assign', targets=[Obj('Name', id='names')], value=Obj('List', elts=[Obj('Constant', value='zz')])),
+    # every statement form of a literal __all__, end to end: minify(rename_globals=True) on a module that lists two of its three functions
+    from . import rename_e2e
+    body = 'def g_keep_a():\n    return g_other() + g_other()\ndef g_keep_b():\n    return g_keep_a() + g_keep_a()\ndef g_other():\n    return g_keep_b() + g_keep_b()\n'
+    all_forms = {
+        'Assign': "__all__ = ['g_keep_a', 'g_keep_b']\n",
+        'AnnAssign': "__all__: list = ['g_keep_a', 'g_keep_b']\n",
+        'AugAssign': "__all__ = []\n__all__ += ['g_keep_a', 'g_keep_b']\n",
+        'two statements': "__all__ = ['g_keep_a']\nprint(g_other)\n__all__ += ['g_keep_b']\n",
+        'mixed elements': "n_name = 'x'\n__all__ = ['g_keep_a', n_name, 'g_keep_b', 1]\n",
+        'at the end of the module': None,
+        'other list (control)': "names = ['g_keep_a', 'g_keep_b']\n",
     }
-    shapes['two statements'] = lambda: [Obj('Assign', targets=[Obj('Name', id='__all__')], value=Obj('List', elts=[Obj('Constant', value='a')])),
-                                        Obj('Expr', value=Obj('Name', id='x')),
-                                        Obj('AugAssign', target=Obj('Name', id='__all__'), value=Obj('List', elts=[Obj('Constant', value='b')]))]
-    shapes['mixed elements'] = lambda: Obj('Assign', targets=[Obj('Name', id='__all__')], value=Obj('List', elts=[Obj('Constant', value='a'), Obj('Name', id='n'), Obj('Constant', value='b'), Obj('Constant', value=1)]))
-    for sh, mk in shapes.items():
-        stmt = mk()
-        body = stmt if isinstance(stmt, list) else [stmt]
-        hooks = {'ast.iter_child_nodes': lambda I, e, args, kw, env, _s=body: list(_s)}
-        I = Interp(model, UTIL, hooks)
-        res = I.explore(lambda: I.call_function(fa.qual, [Obj('Module')]))
-        outs = [r[0] for r in res]
-        if any(o[0] != 'return' or o[1] is TOP for o in outs):
-            raise AnalysisError('UNDECIDED: find__all__ on %s: %s / %s' % (sh, outs, [r[2] for r in res]))
-        got = [sorted(o[1]) for o in outs]
-        want = ['a', 'b'] if sh != 'other' else []
-        rep.check(all(g == want for g in got), 'C10.FLOW', fa.loc(), 'find__all__ on `%s` form -> %s' % (sh, got[0]), 'string entries of a literal __all__ list', 'find__all__ returns %s for the %s form, expected %s' % (got, sh, want),
-                  key='C10.FLOW|find__all__|' + sh)
+    for sh, head in all_forms.items():
+        source = (head + body) if head is not None else (body + "__all__ = ['g_keep_a', 'g_keep_b']\n")
+        label = '__all__ written as `%s`' % sh
+        key = 'C10.FLOW|find__all__|' + sh
+        try:
+            text = rename_e2e.run_pipeline(model, source, rename_locals=True, rename_globals=True)
+        except rename_e2e.MinifyRaises as ex:
+            rep.violation('C10.FLOW', mi.loc(), label, '%s: minify fails on a valid module' % ex, key=key)
+            continue
+        new_of, _p = rename_e2e.final_names(source, text)
+        kept = {n for n in ('g_keep_a', 'g_keep_b') if new_of.get(n) == {n}}
+        other_renamed = new_of.get('g_other') != {'g_other'}
+        if 'control' in sh:
+            rep.check(not kept and other_renamed, 'C10.FLOW', mi.loc(), '%s -> kept %s' % (label, sorted(kept)), 'a list that is not __all__ protects nothing (the probe is sensitive)',
+                      'the functions are not renamed even without an __all__ list: the probe cannot see the protection', key=key)
+        else:
+            rep.check(kept == {'g_keep_a', 'g_keep_b'} and other_renamed, 'C10.FLOW', mi.loc(), '%s -> kept %s, g_other -> %s' % (label, sorted(kept), sorted(new_of.get('g_other', []))),
+                      'the listed names keep their spelling, the unlisted one is renamed',
+                      'with %s and rename_globals on, the listed names end up as %s' % (label, {n: sorted(new_of.get(n, [])) for n in ('g_keep_a', 'g_keep_b')}) if kept != {'g_keep_a', 'g_keep_b'} else
+                      'asking to keep the __all__ names also stops the renaming of g_other', key=key)
 
     # awslambda
     aw = model.func('python_minifier.awslambda')
@@ -152,39 +158,43 @@ def run(model, rep):
         rep.check(not mine, 'C10.FLOW', main.loc(), 'command line: %s' % label, 'minify() receives the listed names for every file', '; '.join(p.text for p in mine[:2]), key='C10.FLOW|cli|' + label)
     rep.floor('C10.FLOW', 40)
 
-    # ---------------- GUARD: gates pin exactly the preserved names (abstract evaluation)
-    for fname, make in (('allow_rename_locals', 'FunctionDef'), ('allow_rename_globals', 'Module')):
-        fi = model.func(UTIL + '.' + fname)
-        b1 = Obj('NameBinding', name='keep')
-        b2 = Obj('NameBinding', name='other')
-        pinned = []
-        hooks = {'.disallow_rename': lambda I, e, args, kw, env: pinned.append(I.last_recv),
-                 'is_namespace': lambda I, e, args, kw, env: isinstance(args[0], Obj) and args[0].cls in ('FunctionDef', 'Module', 'ClassDef', 'Lambda', 'ListComp'),
-                 'ast.iter_child_nodes': lambda I, e, args, kw, env: [],
-                 'find__all__': lambda I, e, args, kw, env: []}
-        I = Interp(model, UTIL, hooks)
-        node = Obj(make, bindings=[b1, b2])
-        res = I.explore(lambda: I.call_function(fi.qual, [node, True, ['keep']]))
-        if any(r[0][0] != 'return' for r in res):
-            raise AnalysisError('UNDECIDED: %s: %s' % (fname, [r[0] for r in res]))
-        names = sorted(x.attrs.get('name') for x in pinned)
-        rep.check(names == ['keep'], 'C10.GUARD', fi.loc(), '%s(rename on, preserve=[keep]) pins %s' % (fname, names), 'exactly the preserved name',
-                  'with renaming on and preserve=[\'keep\'] the gate pins %s' % names, key='C10.GUARD|enum|' + fname)
-    # (that nested scopes are reached with the same switch and list is decided on a real tree by gate_tree below)
-    # reserved globals are added to module.assigned_names before the assignment loop, and rename() forwards them
-    # preserved globals are never handed out as new names: rename() evaluated with the repository's reservation code on a small world whose
-    # candidate stream starts with the preserved name (assign_enum.reservation_world)
-    from . import assign_enum
-    problems, final = assign_enum.reservation_world(model, preserved_globals=('PRESERVED', 'other_kept'))
-    mine = [p_ for p_ in problems if 'preserved global' in p_]
-    na = model.func('python_minifier.rename.renamer.NameAssigner.__call__')
-    rep.check(not mine, 'C10.GUARD', na.loc(), 'preserved globals offered first by the candidate stream -> final names %s' % final, 'no binding visible at module level receives a preserved name',
-              '; '.join(mine[:2]), key='C10.GUARD|reserve')
-    from .c09 import gate_tree
-    keep = ['e', 'total', 'K', 'top', 'w', 'line', 'v', 'err', 'c2', 'yy', 'inner']
-    gate_tree(model, rep, 'C10.GUARD', True, True, keep, lambda kind, name: True if (name in keep or (kind == 'Module' and name == 'f')) else None,
-              'permission gates with renaming on, preserve=%s and __all__ = [\'f\', ...]' % keep, 'C10.GUARD|tree')
-    rep.floor('C10.GUARD', 4)
     from . import rename_e2e
     rep.rule('C10.E2E', 'renaming end to end on probe modules with preserve lists: the listed names keep their spelling, everything else is still renamed consistently')
     rename_e2e.run(model, rep, 'C10.E2E', only=('rename_locals with preserved names',))
+
+    # white-box: written against the permission gates and the assignment loop by name; not evaluated when those do not exist under their names
+    def guard():
+        # ---------------- GUARD: gates pin exactly the preserved names (abstract evaluation)
+        for fname, make in (('allow_rename_locals', 'FunctionDef'), ('allow_rename_globals', 'Module')):
+            fi = model.func(UTIL + '.' + fname)
+            b1 = Obj('NameBinding', name='keep')
+            b2 = Obj('NameBinding', name='other')
+            pinned = []
+            hooks = {'.disallow_rename': lambda I, e, args, kw, env: pinned.append(I.last_recv),
+                     'is_namespace': lambda I, e, args, kw, env: isinstance(args[0], Obj) and args[0].cls in ('FunctionDef', 'Module', 'ClassDef', 'Lambda', 'ListComp'),
+                     'ast.iter_child_nodes': lambda I, e, args, kw, env: [],
+                     'find__all__': lambda I, e, args, kw, env: []}
+            I = Interp(model, UTIL, hooks)
+            node = Obj(make, bindings=[b1, b2])
+            res = I.explore(lambda: I.call_function(fi.qual, [node, True, ['keep']]))
+            if any(r[0][0] != 'return' for r in res):
+                raise AnalysisError('UNDECIDED: %s: %s' % (fname, [r[0] for r in res]))
+            names = sorted(x.attrs.get('name') for x in pinned)
+            rep.check(names == ['keep'], 'C10.GUARD', fi.loc(), '%s(rename on, preserve=[keep]) pins %s' % (fname, names), 'exactly the preserved name',
+                      'with renaming on and preserve=[\'keep\'] the gate pins %s' % names, key='C10.GUARD|enum|' + fname)
+        # (that nested scopes are reached with the same switch and list is decided on a real tree by gate_tree below)
+        # reserved globals are added to module.assigned_names before the assignment loop, and rename() forwards them
+        # preserved globals are never handed out as new names: rename() evaluated with the repository's reservation code on a small world whose
+        # candidate stream starts with the preserved name (assign_enum.reservation_world)
+        from . import assign_enum
+        problems, final = assign_enum.reservation_world(model, preserved_globals=('PRESERVED', 'other_kept'))
+        mine = [p_ for p_ in problems if 'preserved global' in p_]
+        na = model.func('python_minifier.rename.renamer.NameAssigner.__call__')
+        rep.check(not mine, 'C10.GUARD', na.loc(), 'preserved globals offered first by the candidate stream -> final names %s' % final, 'no binding visible at module level receives a preserved name',
+                  '; '.join(mine[:2]), key='C10.GUARD|reserve')
+        from .c09 import gate_tree
+        keep = ['e', 'total', 'K', 'top', 'w', 'line', 'v', 'err', 'c2', 'yy', 'inner']
+        gate_tree(model, rep, 'C10.GUARD', True, True, keep, lambda kind, name: True if (name in keep or (kind == 'Module' and name == 'f')) else None,
+                  'permission gates with renaming on, preserve=%s and __all__ = [\'f\', ...]' % keep, 'C10.GUARD|tree')
+        rep.floor('C10.GUARD', 4)
+    rep.optional(['C10.GUARD'], ['C10.E2E', 'C10.FLOW'], guard)
